@@ -56,6 +56,10 @@ def cases(tier, seed):
         if i not in seen:
             seen.add(i)
             out.append({"id": i, "fv": fv, "dev": 1 + len(extra), "seed": seed, "tier": tier})
+    # explicit member: the product of the continuous choice grids exceeds 2^15 (flat policy index needs > 16 bits)
+    fv = family.normalise(dict(family.BASE, cc="big", T=2))
+    out.append({"id": e1.fv_id(fv), "fv": fv, "dev": 2, "seed": seed, "tier": tier})
+    seen.add(e1.fv_id(fv))
     # explicit members: lower-bound constraint + -inf utility at feasible points (T=1, so the model is supported)
     for extra in ({}, {"e": 1}, {"cc": "cl"}, {"filt": "none"}):
         fv = family.normalise(dict(family.BASE, cons="lower", T=1, **extra))
@@ -81,7 +85,7 @@ def run_model(fv, seed, valuations=("default",), value_arrays=("own", "synthetic
     if not b.valid:
         return outcome(status="skipped", skip_reason="invalid-combo", nontrivial=False)
     viols = []
-    rows = skipped_rows = traces = 0
+    rows = skipped_rows = traces = n_near = 0
     dig = []
     why = None
     for vname in valuations:
@@ -95,6 +99,16 @@ def run_model(fv, seed, valuations=("default",), value_arrays=("own", "synthetic
             viols.append(violation("runs", "solve", "EXC:" + type(e).__name__, str(e)[:500], params=vname))
             continue
         init, n_grid = e1.initial_states(r, R[0], offgrid=offgrid)
+        n_near = 0
+        if offgrid:
+            # agents that are nearly indifferent between the restricted discrete alternatives (gap ~3e-6 relative)
+            try:
+                near = e1.near_tie_agents(r, [r.from_lcm_layout(v, t) for t, v in enumerate(V)])
+            except Exception:
+                near = {}
+            if near:
+                n_near = len(next(iter(near.values())))
+                init = {s: np.concatenate([init[s], np.asarray(near[s], dtype=init[s].dtype)]) for s in init}
         for va in value_arrays:
             if va == "own":
                 Vuse = V
@@ -137,7 +151,7 @@ def run_model(fv, seed, valuations=("default",), value_arrays=("own", "synthetic
         traces=traces,
         digest=digest(dig),
         nontrivial=rows > 0,
-        counters={"rows_skipped_neg_inf": skipped_rows, "unsupported_runs": 1 if why else 0},
+        counters={"rows_skipped_neg_inf": skipped_rows, "unsupported_runs": 1 if why else 0, "near_tie_agents": n_near if traces else 0},
     )
 
 
